@@ -158,7 +158,7 @@ func c02Specs(tier string) []world.Spec {
 }
 
 func c02Opts(tier string, spec world.Spec) hOpts {
-	o := hOpts{Spec: spec, Advance: true, MaxDev: 1, BadIdP: c02Evil(), OnlyLive: true, MaxSessions: 2,
+	o := hOpts{Spec: spec, Advance: true, MaxDev: 1, BadIdP: c02Evil(), OnlyLive: false, MaxSessions: 3,
 		GoodIdP: []world.Answer{world.Honest, {Name: "honest-aud-array-rsa", AudArray: true, RSA: true}, {Name: "honest-refresh-omits-id", NoIDToken: true}}}
 	if tier == "thorough" {
 		o.MaxDev = 2
